@@ -32,12 +32,91 @@ func dirtyTraceCases(c *Ctx, mode string) {
 	if mode != "c01" {
 		return
 	}
+	if res := Safe(func() string { dirtyTraceBlockFull(c); return "ok" }); res != "ok" {
+		c.Fail("c07/discard-leaves-trace/scenario-panic", "engine-level case box-gaslimit-reached panicked: "+res, nil)
+	}
 	for _, cs := range []string{"box-issue-asset/box-first", "box-issue-asset/transfer-first", "box-contract-sstore/box-first", "box-contract-sstore/transfer-first", "box-contract-sstore-noop/box-first", "box-contract-sstore-noop/transfer-first", "kept-failed-call/invalid", "kept-failed-call/revert"} {
 		res := Safe(func() string { dirtyTraceCase(c, cs); return "ok" })
 		c.Count("c07:dirtytrace:" + cs + ":" + res)
 		if res != "ok" {
 			c.Fail("c07/discard-leaves-trace/scenario-panic", "engine-level case "+cs+" panicked", nil)
 		}
+	}
+}
+
+// dirtyTraceBlockFull: the OTHER way a candidate is dropped after it wrote — the block is full (ErrGasLimitReached): a box whose
+// later sub-tx no longer fits into the block's gas pool after its earlier sub-txs ran is skipped (not even listed as invalid). The
+// block gas limit is swept so that every split point of the box is hit; whenever the miner includes the plain transfer and not the
+// box, the block must be the block it builds from the transfer alone, and the validator path must accept it.
+func dirtyTraceBlockFull(c *Ctx) {
+	now := uint32(time.Now().Unix())
+	w := NewWorld(3, now-600000, 10000)
+	m := w.NewNode(3)
+	defer m.Close()
+	v := w.NewNode(3)
+	defer v.Close()
+	uk := detKey("dt-full-user")
+	U := keyAddr(uk)
+	A, B, D := keyAddr(detKey("dt-full-a")), keyAddr(detKey("dt-full-b")), keyAddr(detKey("dt-full-d"))
+	parent := m.BC.CurrentBlock()
+	t := parent.Time() + 1
+	fund, _, err := m.Build(parent, t, types.Transactions{txTransfer(w.FounderKey, U, lemo(1000), TxOpt{Exp: uint64(t) + 100, Msg: "dt-full-fund"})}, nil)
+	if err != nil {
+		panic(err)
+	}
+	for _, n := range []*Node{m, v} {
+		if err := n.Insert(CloneBlock(fund)); err != nil {
+			panic(err)
+		}
+	}
+	parent, t = fund, t+1
+	mk := func() (types.Transactions, *types.Transaction, *types.Transaction) {
+		exp := uint64(t) + 100
+		s1 := txTransfer(uk, A, lemo(3), TxOpt{Exp: exp, GasLimit: 30000, Msg: "dt-full-s1"})
+		s2 := txTransfer(uk, B, lemo(4), TxOpt{Exp: exp, GasLimit: 30000, Msg: "dt-full-s2"})
+		box := txBox(uk, types.Transactions{s1, s2}, TxOpt{Exp: exp, GasLimit: 200000, Msg: "dt-full-box"})
+		pay := txTransfer(w.FounderKey, D, lemo(1), TxOpt{Exp: exp, GasLimit: 30000, Msg: "dt-full-pay"})
+		return types.Transactions{pay, box}, box, pay
+	}
+	hit := 0
+	for gl := uint64(200000); gl <= 330000; gl += 2500 {
+		cands, box, pay := mk()
+		blk, _, err := m.BuildGas(parent, t, cands, nil, gl)
+		if err != nil {
+			continue
+		}
+		hasPay, hasBox := false, false
+		for _, tx := range blk.Txs {
+			hasPay = hasPay || tx.Hash() == pay.Hash()
+			hasBox = hasBox || tx.Hash() == box.Hash()
+		}
+		if !hasPay || hasBox {
+			continue
+		}
+		hit++
+		_, _, pay2 := mk()
+		only, _, err := m.BuildGas(parent, t, types.Transactions{pay2}, nil, gl)
+		if err != nil {
+			panic(err)
+		}
+		if only.Hash() != blk.Hash() || only.LogRoot() != blk.LogRoot() || only.VersionRoot() != blk.VersionRoot() {
+			c.Fail("c07/discard-leaves-trace/miner-block", fmt.Sprintf("case box-gaslimit-reached (block gas limit %d): the miner skipped the box [transfer, transfer] because the block was full; mining the same slot with only the included transfer gives another block (logRoot equal=%v, versionRoot equal=%v, %d vs %d change logs)", gl, only.LogRoot() == blk.LogRoot(), only.VersionRoot() == blk.VersionRoot(), len(blk.ChangeLogs), len(only.ChangeLogs)), nil)
+			return
+		}
+		if gl%10000 == 0 {
+			vv := w.NewNode(3)
+			e1 := vv.Insert(CloneBlock(fund))
+			e2 := vv.Insert(CloneBlock(blk))
+			vv.Close()
+			if e1 != nil || e2 != nil {
+				c.Fail("c07/discard-leaves-trace/miner-block/validator-rejects", fmt.Sprintf("case box-gaslimit-reached (block gas limit %d): the block the miner built after skipping the box is refused by another node: %v %v", gl, e1, e2), nil)
+				return
+			}
+		}
+	}
+	c.Count(fmt.Sprintf("c07:dirtytrace:box-gaslimit-reached:splits-hit-%d", hit))
+	if hit == 0 {
+		c.Fail("c07/discard-leaves-trace/scenario-not-reached", "case box-gaslimit-reached: no block gas limit of the sweep made the miner include the transfer and skip the box", nil)
 	}
 }
 
